@@ -27,6 +27,19 @@ SHIM_ASSUMPTIONS = [
     'CBMC has no aliasing (Stacked/Tree Borrows) model and treats reads of uninitialised memory as nondeterministic values',
 ]
 
+# source files of /repo a unit's verdict depends on (Rust module dependencies: raw.rs <- segmented/two_queue/adaptive
+# <- wtinylfu; the LFU estimator and the cost tracker are independent of the lists)
+SRC_COMMON = ['Cargo.toml', 'Cargo.lock', 'src/lib.rs', 'src/lru.rs', 'src/cache_api.rs', 'src/macros.rs', 'src/polyfill.rs', 'src/lru/error.rs', 'src/lfu.rs']
+SRC_RAW = ['src/lru/raw.rs']
+SRC_TLFU = ['src/lfu/tinylfu.rs', 'src/lfu/tinylfu']
+SRC_DEPS = {
+    'K-PR': [], 'K-RAW': SRC_RAW, 'K-ITER': SRC_RAW, 'K-CB': SRC_RAW, 'K-LIFE': SRC_RAW,
+    'K-SEG': SRC_RAW + ['src/lru/segmented.rs'], 'K-2Q': SRC_RAW + ['src/lru/two_queue.rs'], 'K-ARC': SRC_RAW + ['src/lru/adaptive.rs'],
+    'K-WTLFU': SRC_RAW + ['src/lru/segmented.rs', 'src/lfu/wtinylfu.rs', 'src/lfu/wtinylfu'] + SRC_TLFU,
+    'K-SKETCH': SRC_TLFU, 'K-TLFU-CTOR': SRC_TLFU, 'K-SLFU': ['src/lfu/sampled.rs'],
+    'K-LEAK': SRC_RAW + ['src/lru/segmented.rs', 'src/lru/two_queue.rs', 'src/lru/adaptive.rs'],
+}
+
 UNITS = {
     'V-ROW': dict(engine='verus', overlay='v_row.py'),
     'V-BLOOM': dict(engine='verus', overlay='v_bloom.py'),
@@ -161,6 +174,8 @@ def _P(units, level, text, note, technique, quick=None, **kw):
     d = dict(units=dict(quick=quick or units, thorough=units), level=level, level_text=text, level_note=note, technique=technique)
     d.update(kw)
     return d
+
+COST_ORDER = ['V-ROW', 'V-BLOOM', 'V-TLFU', 'V-POW', 'K-PR', 'K-SLFU', 'K-TLFU-CTOR', 'K-SKETCH', 'K-RAW', 'K-ITER', 'K-CB', 'K-LIFE', 'K-SEG', 'K-LEAK', 'K-2Q', 'K-WTLFU', 'K-ARC']
 
 ALL_CACHES = ['K-RAW', 'K-SEG', 'K-2Q', 'K-ARC', 'K-WTLFU']
 
